@@ -303,14 +303,21 @@ def diff_observers(got, ref):
     return None, None
 
 
-def check_history(kinds, hist, zyg, variant="plain", twolive_stop=True):
+def other_space(kind):
+    return (kind[0], "graph" if kind[1] == "grid" else "grid")
+
+
+def check_history(kinds, hist, zyg, variant="plain", twolive_stop=True, mixed=False):
     """Executes one history on real objects. kinds[o] = (engine, gtype) of object o.
     Returns (violations [(key, what, prefix)], n_ops_executed, n_observations)."""
     viol = []
     nobj = len(kinds)
     engines = [eng.make_engine(kinds[o][0], variant) for o in range(nobj)]
     names = [{"S": "a" if o == 0 else "c", "T": "b"} for o in range(nobj)]
-    scripts = [{k: models.build_script(script_spec(kinds[o], w)) for k, w in names[o].items()} for o in range(nobj)]
+    # mixed: the alternative script T lives on the OTHER space type (grid <-> graph) of the same engine
+    skind = [{"S": kinds[o], "R": kinds[o], "T": other_space(kinds[o]) if mixed else kinds[o]} for o in range(nobj)]
+    scripts = [{k: models.build_script(script_spec(skind[o][k], w)) for k, w in names[o].items()} for o in range(nobj)]
+    akind = [kinds[o] for o in range(nobj)]      # space type / engine of the object's current set-up
     abst = [None] * nobj          # None | 'released' | (which, ops)
     last_ret = [None] * nobj      # return of the last driver call since the last setup
     completed_obs = [None] * nobj
@@ -340,6 +347,8 @@ def check_history(kinds, hist, zyg, variant="plain", twolive_stop=True):
             viol.append(("C10:%s:exception:%s" % (pre, op), "history %s: %s raised %s: %s" % (prefix, op, type(e).__name__, e), prefix))
             break
         nops += 1
+        if op in "STR":
+            akind[o] = skind[o][op]
         if op in "SR":
             abst[o] = (names[o]["S"], "")
             last_ret[o] = None
@@ -398,9 +407,9 @@ def check_history(kinds, hist, zyg, variant="plain", twolive_stop=True):
             if got["complete"] and last_ret[p] is False:
                 completed_obs[p] = got
             # (b) canonical-history equivalence
-            cres = zyg.canonical(kinds[p], abst[p][0], abst[p][1])
+            cres = zyg.canonical(akind[p], abst[p][0], abst[p][1])
             if cres[0] != "ok":
-                viol.append(("C10:canonical:%s" % cres[0], "canonical history S%s,%s of kind %r: %s" % (abst[p][0], abst[p][1], kinds[p], cres[1]), prefix))
+                viol.append(("C10:canonical:%s" % cres[0], "canonical history S%s,%s of kind %r: %s" % (abst[p][0], abst[p][1], akind[p], cres[1]), prefix))
                 stop = True
                 break
             cret, cobs = cres[1][-1]
